@@ -184,6 +184,14 @@ func (s *Solver) declare(t *Term) {
 	for n, sig := range ufs {
 		if !s.declared[n] {
 			s.declared[n] = true
+			if s.Kind == "cvc5" && os.Getenv("SYMGO_LOWER_UF") == "" {
+				// cvc5 knows ASCII case conversion natively (the engine's strings are ASCII, see symLower);
+				// the second solver keeps the uninterpreted symbol plus axioms (weaker, still sound).
+				if def, ok := map[string]string{"u_lower": "str.to_lower", "u_upper": "str.to_upper"}[n]; ok && sig == "(String) String" {
+					s.send(fmt.Sprintf("(define-fun %s ((x String)) String (%s x))", n, def))
+					continue
+				}
+			}
 			s.send(fmt.Sprintf("(declare-fun %s %s)", n, sig))
 		}
 	}
